@@ -59,8 +59,10 @@ class ReadPathRun:
         w = self.w
         w.patch()
         self.defs = {}
+        import pyrtma.core_defs as cdefs
+        core = {v.type_id: v for k, v in vars(cdefs).items() if k.startswith("MDF_")}
         for t in GOOD_TYPES + [C.MT_ACKNOWLEDGE]:
-            cls = PM._msg_defs[t]
+            cls = core[t]               # the shipped core definitions (what a fresh process has registered)
             self.defs[t] = (cls.type_size, cls.type_hash)
         self.scratch_layout = 0
         self.define_scratch(ch.pick("cfg.layout", 2))
@@ -516,7 +518,17 @@ class ReadPathRun:
         ch = self.ch
         self.timecode_wanted = timecode
         try:
-            self.setup()
+            try:
+                self.setup()
+            except Exception as e:
+                from pyrtma.exceptions import RTMAMessageError, ClientError
+                if isinstance(e, (RTMAMessageError, ClientError)) and getattr(self, "srv", None) is not None:
+                    # the scripted server answered the handshake with a well-formed ACKNOWLEDGE
+                    res.add("C08", "good_frame_rejected_during_connect",
+                            f"Client.connect() failed on the server's well-formed acknowledgement: {type(e).__name__}: {str(e)[:120]}",
+                            sig="good_frame_rejected_during_connect")
+                    return res
+                raise
             c = self.client
             init = [ch.choose("init.t", GOOD_TYPES + [SCRATCH_TYPE]), ch.choose("init.t", GOOD_TYPES + [SCRATCH_TYPE])]
             self.model_sub("sub", init)
